@@ -1,5 +1,7 @@
 //! C18: the real rumqttc EventLoop (v4/v5) under paused tokio time, one tick = one second.
-//! usage: client_keepalive <version 4|5> <K = keep-alive in ticks, 0 = disabled> <schedules.ndjson> <traces-out.ndjson>
+//! usage: client_keepalive <version 4|5> <K = keep-alive in ticks, 0 = disabled> <schedules.ndjson> <traces-out.ndjson> [server]
+//! With a fifth argument "server" (MQTT 5 only) K is the Server Keep Alive of the CONNACK, which replaces the client's own
+//! keep-alive (set to 7 s, a value no schedule uses) for the connection.
 //! A schedule is {"stall": bool, "delays": [d...], "horizon": H, "traffic": [ticks at which the user publishes QoS 0]}:
 //! the scripted broker answers the n-th PINGREQ delays[n] ticks after it saw it (1000 = never); with stall it never answers
 //! the CONNECT. Recorded: {"ev":"reset"}, {"ev":"stalled","elapsed":ticks,"err":..} or {"ev":"connected"}, then one
@@ -130,15 +132,26 @@ fn v4_write(p: &Pk, w: &mut BytesMut) { v4::packet(p).write(w, 1 << 20).unwrap()
 fn v4_connack(w: &mut BytesMut) { rumqttc::Packet::ConnAck(rumqttc::ConnAck::new(rumqttc::ConnectReturnCode::Success, false)).write(w, 1 << 20).unwrap(); }
 fn v4_publish(c: &rumqttc::AsyncClient) { let _ = c.try_publish("t", rumqttc::QoS::AtMostOnce, false, b"x".to_vec()); }
 
+static SERVER_K: std::sync::atomic::AtomicI64 = std::sync::atomic::AtomicI64::new(-1);
 fn v5_mk(k: u64) -> (rumqttc::v5::AsyncClient, rumqttc::v5::EventLoop) {
     let mut o = rumqttc::v5::MqttOptions::new("c", "localhost", 1883);
-    o.set_keep_alive(Duration::from_secs(k));
+    let server = SERVER_K.load(std::sync::atomic::Ordering::Relaxed) >= 0;
+    o.set_keep_alive(Duration::from_secs(if server { 7 } else { k }));
     o.set_connection_timeout(CONN_TIMEOUT);
     rumqttc::v5::AsyncClient::new(o, 10)
 }
 fn v5_read(buf: &mut BytesMut) -> Option<Pk> { rumqttc::v5::mqttbytes::v5::Packet::read(buf, None).ok().map(|p| v5::unpacket(&p)) }
 fn v5_write(p: &Pk, w: &mut BytesMut) { v5::packet(p).write(w, None).unwrap(); }
-fn v5_connack(w: &mut BytesMut) { v5::packet(&pk("connack", 0, 0, 0)).write(w, None).unwrap(); }
+fn v5_connack(w: &mut BytesMut) {
+    let sk = SERVER_K.load(std::sync::atomic::Ordering::Relaxed);
+    if sk < 0 { v5::packet(&pk("connack", 0, 0, 0)).write(w, None).unwrap(); return; }
+    use rumqttc::v5::mqttbytes::v5 as cp;
+    let props = cp::ConnAckProperties { session_expiry_interval: None, receive_max: None, max_qos: None, retain_available: None, max_packet_size: None,
+        assigned_client_identifier: None, topic_alias_max: None, reason_string: None, user_properties: vec![], wildcard_subscription_available: None,
+        subscription_identifiers_available: None, shared_subscription_available: None, server_keep_alive: Some(sk as u16), response_information: None,
+        server_reference: None, authentication_method: None, authentication_data: None };
+    cp::Packet::ConnAck(cp::ConnAck { session_present: false, code: cp::ConnectReturnCode::Success, properties: Some(props) }).write(w, None).unwrap();
+}
 fn v5_publish(c: &rumqttc::v5::AsyncClient) { let _ = c.try_publish("t", rumqttc::v5::mqttbytes::QoS::AtMostOnce, false, b"x".to_vec()); }
 
 driver!(drive_v4, v4, v4_mk, v4_read, v4_write, v4_connack, v4_publish);
@@ -148,6 +161,7 @@ driver!(drive_v5, v5, v5_mk, v5_read, v5_write, v5_connack, v5_publish);
 async fn main() {
     let a: Vec<String> = std::env::args().collect();
     let (version, k) = (a[1].parse::<u32>().unwrap(), a[2].parse::<u64>().unwrap());
+    if a.get(5).map(|x| x == "server").unwrap_or(false) && version == 5 { SERVER_K.store(k as i64, std::sync::atomic::Ordering::Relaxed); }
     let text = std::fs::read_to_string(&a[3]).unwrap();
     let mut f = std::io::BufWriter::new(std::fs::File::create(&a[4]).unwrap());
     let queue: Queue = Rc::new(RefCell::new(VecDeque::new()));
